@@ -36,7 +36,7 @@ REG = dict(
 
 def run(tier, seed):
     return generic.run_spec("C05", tier, seed, STEPS, RULE,
-                            required=["waits_compared", "waits_epoll", "waits_epollcl", "waits_poll", "waits_select", "user_fds_compared",
+                            required=["waits_compared", "add_on_closed_fd_refused", "add_on_closed_fd_accepted", "waits_epoll", "waits_epollcl", "waits_poll", "waits_select", "user_fds_compared",
                                       "internal_fds_seen", "enumerated_histories", "event_adds", "event_dels", "event_readds", "fd_number_reused",
                                       "dup2_over_open_fd", "close_before_del", "cb_et", "del_in_callback", "callbacks", "changelist_grown_past_64",
                                       "waits_after_over_64_fds_changed"],
